@@ -32,6 +32,10 @@ def check(ctx: Ctx) -> None:
     ctx.assume('E1 assumptions; the channel object is an external dependency (changing it after solve is outside '
                'the property); exceptional exits out of scope; one keyed suppression '
                '(IterativeIASolverBaseClass._solve_finalize, _full_F) - see DESIGN.md')
+    from ..commit import check_family
+    check_family(ctx, 'C10.d', ['IASolverBaseClass'], floor=5)
+    from ..idioms import check_filtered_positions
+    check_filtered_positions(ctx, 'C10.e', [BASE, ALGS], floor=1)
     ctx.rule('C10.a', 'DSF: no derived solver quantity is DIRTY at a normal exit of any public entry point', floor=100)
     for cname in IA.classes:
         analyse_class(ctx, 'C10.a', IA, cname)
@@ -70,6 +74,10 @@ def _check_power_applied(ctx: Ctx) -> None:
 
 
 MUTANTS = [
+    Mutant('P-stored-before-positivity-check', BASE, 'IASolverBaseClass.P@setter',
+           [('replace', '    value = np.array(value)\n', '    value = np.array(value)\n        self._P = value\n')], r'C10\.d:IASolverBaseClass\.P@setter'),
+    Mutant('revert-fix-clear-before-validation', BASE, 'IASolverBaseClass.set_receive_filters',
+           [('regex', r'(    if W is None and W_H is None:)', r'    self._clear_receive_filter()\n\1')], r'C10\.d:IASolverBaseClass\.set_receive_filters'),
     Mutant('drop-clear-receive-in-minleakage-updateW', ALGS, 'MinLeakageIASolver._updateW',
            [('delete', r'self\._clear_receive_filter\(\)')], r'C10\.a:.*solve:_(full_)?W'),
     Mutant('drop-clear-precoder-in-maxsinr-updateF', ALGS, 'MaxSinrIASolver._updateF',
